@@ -21,7 +21,10 @@ import sys
 import time
 
 V = os.path.dirname(os.path.dirname(os.path.abspath(__file__)))
-ENV = dict(os.environ, GOFLAGS="-mod=mod", GOPROXY="off", GOSUMDB="off")
+# The repository's own toolchain (go 1.24.2, reached by the default `go` through
+# its cached toolchain switch, which needs GOSUMDB left alone).
+ENV = dict(os.environ, GOFLAGS="-mod=mod", GOPROXY="off")
+ENV.pop("GOSUMDB", None)
 
 
 def sh(cmd, cwd, timeout=1800, env=ENV):
@@ -81,6 +84,7 @@ def main():
         res["demo_cmd"] = run
         if run:
             run = re.sub(r"/tmp/mut/%s\b" % pid, wt, run)
+            run = run.replace("GOSUMDB=off", "GOSUMDB=")
             rc1, out1 = sh(run, wt, timeout=1800)
             res["demo_fails_with_change"] = rc1 != 0
             sh("git apply -R --whitespace=nowarn %s" % diff, wt)
